@@ -91,6 +91,7 @@ func allScenarios() []*Scenario {
 	psr("sub-ping-vs-pub", []string{"c1", ""}, th(c("SUBSCRIBE", "ch"), c("PING")), th(c("PUBLISH", "ch", "m1")))
 	psr("sub-get-vs-two-pubs", []string{"c1", "", ""}, th(c("SUBSCRIBE", "ch1", "ch2"), c("GET", "@k0")), th(c("PUBLISH", "ch1", "m1")), th(c("PUBLISH", "ch2", "m2")))
 	psr("sub-sub-replies-vs-pub-pub", []string{"c1", "c2", ""}, th(c("SUBSCRIBE", "ch"), c("PING", "x")), th(c("SUBSCRIBE", "ch"), c("PING", "y")), th(c("PUBLISH", "ch", "m1"), c("PUBLISH", "ch", "a\r\nb")))
+	s = append(s, handleScenarios()...)
 	tier := os.Getenv("VERIF_TIER")
 	s = append(s, genPairScenarios(tier)...)
 	s = append(s, genMultiPairScenarios(tier)...)
